@@ -239,9 +239,78 @@ def run_all_users(case):
     return out
 
 
+def gen_wall_clock_case(rng, index, tier):
+    """no TRASH_DATE: 'now' is the real clock, which has a sub-second part
+    while a DeletionDate has none.  An entry trashed DAYS days ago to the
+    second IS older than DAYS days as soon as the second has begun."""
+    L = gen.make_layout(rng, volumes=[], home_own_volume=False, xdg='unset',
+                        top_states={}, alt_states={}, trash_volumes_env=True)
+    ht = L.home_trash()
+    entries = []
+    for nm, off in (('just-old', 0), ('old', -86400), ('young', 3600)):
+        e = trashgen.add_trashed(L, rng, ht, nm, L.home + '/docs/' + nm,
+                                 '@@DATE:%d@@' % off, rng.choice(['file', 'tree']),
+                                 'c%dwc%s' % (index, nm), volume_rel='', home=True)
+        e['offset'] = off
+        entries.append(e)
+    case = L.desc()
+    case['env'] = dict((k, v) for k, v in case['env'].items() if k != 'TRASH_DATE')
+    case['kind'] = 'wall-clock'
+    case['days'] = rng.choice([0, 0, 1, 3, 30])
+    case['entries'] = entries
+    case['trashes'] = [ht]
+    return case
+
+
+def run_wall_clock(case):
+    out = {'violations': [], 'obs': {}, 'features': ['wall-clock']}
+    obs = out['obs']
+    import time
+    with world.World(case) as w:
+        # wait for the start of a second, then date the entries and run at once
+        t = time.time()
+        time.sleep(1.0 - (t - int(t)) + 0.02)
+        now0 = datetime.datetime.now().replace(microsecond=0)
+        for e in case['entries']:
+            ik, pk = trashworld.pair_keys(e)
+            d = now0 - datetime.timedelta(days=case['days']) + \
+                datetime.timedelta(seconds=e['offset'])
+            with open(w.abs(ik)) as f:
+                txt = f.read()
+            with open(w.abs(ik), 'w') as f:
+                f.write(txt.replace('@@DATE:%d@@' % e['offset'], d.strftime(FMT)))
+        s0 = w.snapshot()
+        r = run.run(w, 'empty', [str(case['days'])], stdin=b'')
+        took = (datetime.datetime.now() - now0).total_seconds()
+        s1 = w.snapshot()
+        if r.timeout or r.audit_ok() is False or took > 600:
+            out['verdict'] = 'inconclusive'
+            out['why'] = 'watchdog' if r.timeout else 'audit mismatch / slow'
+            return out
+        obs['wall_clock_runs'] = 1
+        for e in case['entries']:
+            st = trashworld.entry_state(s0, s1, e)
+            # 'young' is an hour away from the limit: kept unless the run took an hour
+            exp = 'gone' if e['offset'] <= 0 else 'intact'
+            if st != exp:
+                out['violations'].append({
+                    'mechanism': 'wall-clock:%s-entry-%s' % (
+                        'old' if exp == 'gone' else 'young', st),
+                    'detail': {'run': r.brief(), 'entry': e, 'days': case['days'],
+                               'dated_at': now0.strftime(FMT), 'took_s': took}})
+            else:
+                obs['wall_clock_entries_judged'] = obs.get('wall_clock_entries_judged', 0) + 1
+    out['nontrivial'] = True
+    out['replayable'] = False          # (dated at run time)
+    out['verdict'] = 'violation' if out['violations'] else 'ok'
+    return out
+
+
 def gen_case(rng, index, tier):
     if index % 150 == 7:
         return gen_race_case(rng, index, tier)
+    if index % 120 == 77:
+        return gen_wall_clock_case(rng, index, tier)
     if index % 60 == 31:
         return gen_all_users_case(rng, index, tier)
     now = rand_now(rng)
@@ -398,6 +467,8 @@ def run_case(case):
         return run_race(case)
     if case.get('kind') == 'all-users':
         return run_all_users(case)
+    if case.get('kind') == 'wall-clock':
+        return run_wall_clock(case)
     out = {'violations': [], 'obs': {}, 'features': []}
     obs = out['obs']
     now = datetime.datetime.strptime(case['now'], FMT)
